@@ -64,6 +64,10 @@ def run(ctx, idx):
         else:
             ctx.hold("C04.d", con, d.module.rel, d.execute.node.lineno, "no data-dependent scalar quotient is spread over a whole array", nontrivial=False)
     ctx.floor("C04.a", "return sites of fuzzy producers", n_ret, 14)
+    ctx.rule("C04.e", "The clamp is final: no command writes in place through one of its inputs, so a fuzzy result cannot be rescaled or overwritten after its producer clamped it.")
+    for key, (d, r) in sorted(R.results(idx).items()):
+        if d.is_data() or any(getattr(p, "is_fuzzy", None) for p in d.inputs.values()):
+            R.leaves_inputs_alone(ctx, "C04.e", d, r, "when that input is a fuzzy result, the values its producer clamped to [-1, +1] are replaced after the fact and every later reader sees values outside the range")
     missing = FUZZY_PRODUCERS - found
     extra = found - FUZZY_PRODUCERS
     if missing:
